@@ -14,9 +14,11 @@ FORBIDDEN = re.compile(r'\b(sorry|admit|native_decide|bv_decide|implemented_by|u
 
 # which streams serve which property (module name under harness/, and the property filter passed to gen)
 STREAMS = {
-    'C05': ['bufstream'], 'C06': ['bufstream'], 'C13': ['bufstream'], 'C16': ['bufstream'],
-    'C01': ['schcstream'], 'C02': ['schcstream'], 'C03': ['schcstream'], 'C04': ['schcstream'], 'C10': ['schcstream'],
-    'C11': ['schcstream'], 'C15': ['schcstream'], 'C17': ['schcstream'], 'C18': ['schcstream'], 'C20': ['schcstream'],
+    'C05': ['bufstream'], 'C06': ['bufstream'], 'C13': ['bufstream'], 'C16': ['bufstream', 'histstream'],
+    'C07': ['parsestream'], 'C08': ['parsestream'], 'C14': ['parsestream'], 'C19': ['parsestream'], 'C09': ['parsestream', 'schcstream'],
+    'C12': ['jsonstream'],
+    'C01': ['schcstream'], 'C02': ['schcstream'], 'C03': ['schcstream'], 'C04': ['schcstream', 'histstream'], 'C10': ['schcstream', 'histstream'],
+    'C11': ['schcstream'], 'C15': ['schcstream', 'histstream'], 'C17': ['schcstream'], 'C18': ['schcstream', 'histstream'], 'C20': ['schcstream'],
 }
 
 def load_json(path, default):
@@ -147,7 +149,7 @@ class Run:
                                             'model': model[i] if model else None, 'seed': seed})
             if model is not None and model[i] == 'err:unmodelled':
                 self.cov.branches['model:unmodelled'] += 1
-            elif model is not None and model[i] != out:
+            elif model is not None and not (mod.model_agrees(out, model[i]) if hasattr(mod, 'model_agrees') else model[i] == out):
                 self.disagreements += 1
                 if sum(1 for b in self.broken if b['kind'] == 'correspondence') < 5:
                     self.broken.append({'kind': 'correspondence', 'stream': modname, 'op': line, 'implementation': out, 'model': model[i]})
